@@ -1185,6 +1185,14 @@ func genAccessCase(r *hx.Rand, run *hx.Run, maxN int) []string {
 			pool = append(pool, fmt.Sprintf("%s:%s:%d", instanceNames[r.Intn(len(instanceNames))], hex.EncodeToString(hb2), r.PickInt(0, 5, 77)))
 			run.Count("digest:sibling-same-leading-bytes")
 		}
+		for r.Chance(1, 2) && len(pool) < nd+6 {
+			// cousin: same digest function, the first 1..7 hash bytes equal, then different -
+			// adjacent in the sorted set, but (unlike a sibling) free to belong to another shard
+			hb2 := r.Bytes(l)
+			copy(hb2[:r.Range(1, 7)], hb)
+			pool = append(pool, fmt.Sprintf("%s:%s:%d", instanceNames[r.Intn(len(instanceNames))], hex.EncodeToString(hb2), r.PickInt(0, 5, 77)))
+			run.Count("digest:cousin-common-prefix-1..7-bytes")
+		}
 	}
 	pool = dedupSorted(pool)
 	subset := func(p int) []string {
@@ -1236,6 +1244,54 @@ func genAccessCase(r *hx.Rand, run *hx.Run, maxN int) []string {
 	return script
 }
 
+// genPrefixFamilyCase: for every common prefix length of 1..7 bytes a family of digests of one
+// digest function that agree on exactly that prefix (so they are neighbours in the sorted set yet
+// routed independently), asked family by family and all together, and fetched one by one.
+func genPrefixFamilyCase(r *hx.Rand, run *hx.Run, maxN int) []string {
+	n := r.Range(2, maxN)
+	ss := genShards(r, n)
+	run.Count(fmt.Sprintf("access-shards:%d", n))
+	script := []string{selLine(ss)}
+	l := []int{16, 20, 32, 32, 48, 64}[r.Intn(6)]
+	var all []string
+	for p := 1; p <= 7; p++ {
+		stem := r.Bytes(l)
+		var fam []string
+		for k := r.Range(2, 4); k > 0; k-- {
+			hb := r.Bytes(l)
+			copy(hb[:p], stem)
+			hb[p] = stem[p] ^ byte(1+r.Intn(255)) // differ right after the prefix
+			inst, size := instanceNames[0], 5
+			if r.Chance(1, 3) {
+				inst, size = instanceNames[r.Intn(len(instanceNames))], r.PickInt(0, 5, 77)
+			}
+			fam = append(fam, fmt.Sprintf("%s:%s:%d", inst, hex.EncodeToString(hb), size))
+		}
+		fam = dedupSorted(fam)
+		run.CountN("digest:cousin-common-prefix-1..7-bytes", len(fam))
+		script = append(script, "fm "+strings.Join(fam, " "))
+		all = append(all, fam...)
+	}
+	all = dedupSorted(all)
+	for b := 0; b < n; b++ {
+		if r.Chance(1, 2) {
+			var miss []string
+			for _, t := range all {
+				if r.Chance(1, 2) {
+					miss = append(miss, t)
+				}
+			}
+			script = append(script, fmt.Sprintf("fmans %d missing %s", b, strings.Join(miss, " ")))
+		}
+	}
+	script = append(script, "fm "+strings.Join(all, " "))
+	for i := 0; i < 4; i++ {
+		t := all[r.Intn(len(all))]
+		script = append(script, []string{"get ", "put "}[r.Intn(2)]+t)
+	}
+	return script
+}
+
 func leafScripts(r *hx.Rand, xs []uint64) [][]string {
 	var all [][]string
 	var cur []string
@@ -1281,7 +1337,7 @@ func TestC12(t *testing.T) {
 	run.HasModel = model != nil
 	run.SetRule("shard maps of 1..5 shards (weights 1, 2, 2^32-1, random), object hashes aimed at the boundaries of the fixed point score " +
 		"(by inverting splitmix64), exact score ties, every permutation / removal / one addition per map; composites over recording " +
-		"backends with scripted FindMissing/Get/Put faults and sibling digests sharing their leading 8 hash bytes; " +
+		"backends with scripted FindMissing/Get/Put faults, sibling digests sharing their leading 8 hash bytes and cousin digests sharing only 1..7; " +
 		"a case is non-trivial when it exercises permutation/removal/addition on >= 2 shards or an operation of the composite; distinct by script hash")
 	permN := run.Scale(4, 5)
 	permLimit := 120
@@ -1373,5 +1429,10 @@ func TestC12(t *testing.T) {
 	for i := 0; i < n && run.Findings() < 20; i++ {
 		r := hx.NewRand(run.Seed, "C12-access", i)
 		handle(fmt.Sprintf("seed%d/access%d", run.Seed, i), genAccessCase(r, run, 5))
+	}
+	n = run.Scale(400, 6000)
+	for i := 0; i < n && run.Findings() < 20; i++ {
+		r := hx.NewRand(run.Seed, "C12-prefix", i)
+		handle(fmt.Sprintf("seed%d/prefix%d", run.Seed, i), genPrefixFamilyCase(r, run, 5))
 	}
 }
